@@ -64,14 +64,14 @@ PROPS = {
         translators=LOCKX,
         race=[("memidm", "", 2), ("memfs", CLEAN, 2), ("memfs", "mkdir,remove", 2), ("orefafs", "mkdir,remove", 2)],
         lin=[("memfs", "deadlock", 25000)],
-        props_files=["Avfs/Props/C07.lean"],
+        props_files=["Avfs/Props/C07.lean", "Avfs/Props/C07_orefa.lean"],
         parts=[dict(name="memfs"), dict(name="memfs-files"), dict(name="memfs-small"), dict(name="orefa"), dict(name="failfs"), dict(name="rofs"), dict(name="bpfs"), dict(name="path", tags="verif,avfs_setostype")],
         trusted=MODEL_TRUST,
         assumptions=["part (a) only: sequential no-panic / no-hang; interleavings (b)(c) are C06/C08 work in progress"],
         not_yet_proved=["ranked lock acquisition of the real functions (generic theorem ranked_deadlock_free is proved in Avfs/Conc; the per-function rank obligations need the lock-skeleton translator)", "no-panic as a theorem for the OrefaFS model (the model has panic / hang outcomes exactly where the Go code would; the correspondence reports any it meets), RoFS, BasePathFS, FailFS"],
     ),
     "C10": dict(
-        props_files=["Avfs/Props/C10.lean"],
+        props_files=["Avfs/Props/C10.lean", "Avfs/Props/C10_sim.lean"],
         translators=FACTX,
         parts=[dict(name="bpfs")],
         trusted=["translator harness/cmd/factx (go/ast, syntactic, fails closed)", "the model of ToBasePath/FromBasePath is hand-written (Avfs/Wrap/BasePath.lean), tied by corr bpfs"],
@@ -100,14 +100,14 @@ PROPS = {
         not_yet_proved=["os_agreement as a theorem (needs the Windows branches in the Lean file-system models); the volume theorems (C17_add_empty, C17_delete_gone, C17_delete_add_empty, C17_others_untouched, C17_list_iff, C17_touch) see a volume as the set of names in its root directory, not as a tree"],
     ),
     "C02": dict(
-        props_files=["Avfs/Props/C02.lean"],
+        props_files=["Avfs/Props/C02.lean", "Avfs/Props/C02_orefa.lean"],
         parts=[dict(name="memfs-files"), dict(name="memfs-small"), dict(name="kernel-small", only_tier="thorough", args=["-scn", "file-admin,dir-handle"]), dict(name="kernel-files"), dict(name="orefa"), dict(name="kernel-orefa")],
         trusted=MODEL_TRUST + ["oracle: *os.File through OsFS in a chroot-ed child process on a fresh tmpfs directory"],
         assumptions=["file sizes far below 2^31", "one process; handles interleaved sequentially"],
         not_yet_proved=["OrefaFS handles: executable model tied by corr orefa and compared with os.File by corr kernel-orefa; theorems are stated for the MemFS handle model", "directory handles: one pass is proved (C02_readdir_batches); rewinding differs from os.File (recorded finding dir-handle-rewinds)"],
     ),
     "C03": dict(
-        props_files=["Avfs/Props/C03.lean"],
+        props_files=["Avfs/Props/C03.lean", "Avfs/Props/C03_calls.lean"],
         parts=[dict(name="memfs-perm"), dict(name="memfs-small"), dict(name="kernel-small", only_tier="thorough", args=["-scn", "file-other,file-owner-readonly,file-group,removeall-foreign-subdir,removeall-sticky"]), dict(name="kernel-perm")],
         trusted=MODEL_TRUST,
         assumptions=["one group per user, no ACLs, no capabilities other than the administrator's override"],
